@@ -963,6 +963,10 @@ func LoadNormalized(repoDir, tier string, overlay map[string][]byte) (*Program, 
 				changed = true
 			}
 		}
+		// locals collected into a new record type go back to separate locals (normalize_records.go)
+		if rov, rns := prog.localRecordOverlay(cur); apply(rov, rns, "local record normalisation") {
+			changed = true
+		}
 		ov, ns := prog.newHelperOverlay(cur, round < 2)
 		if apply(ov, ns, "helper inlining") {
 			changed = true
